@@ -131,14 +131,22 @@ func opTables(u *Universe) (map[string]*opInfo, bool) {
 				}
 			case strings.HasPrefix(fd.Name.Name, "New") && fd.Recv == nil:
 				scan(fd, false, nil, fd.Body)
-			case fd.Recv != nil && (fd.Name.Name == "GetBody" || fd.Name.Name == "getBody"):
+			case fd.Recv != nil:
 				if obj, ok := info.Defs[fd.Name].(*types.Func); ok {
 					rn := recvTypeName(obj)
 					if oi := out[rn]; oi != nil {
 						ast.Inspect(fd.Body, func(n ast.Node) bool {
 							if ta, ok := n.(*ast.TypeAssertExpr); ok && ta.Type != nil {
+								if sel, isSel := ta.X.(*ast.SelectorExpr); !isSel || sel.Sel.Name != "Body" {
+									return true
+								}
 								if tv, ok := info.Types[ta.Type]; ok {
-									oi.getBody = typeStr(tv.Type)
+									t := typeStr(tv.Type)
+									if oi.getBody != "" && oi.getBody != t {
+										oi.getBody = "conflicting: " + oi.getBody + " and " + t
+									} else {
+										oi.getBody = t
+									}
 								}
 							}
 							return true
@@ -283,8 +291,8 @@ func ruleR14_3(w *World, r *Report) {
 	}
 	if fn := u.Fn(pDatatypes, "BaseDatatype", "executeLocalBase"); fn != nil {
 		found := false
-		forEachInstr(fn, func(in ssa.Instruction) {
-			if bo, ok := in.(*ssa.BinOp); ok && bo.Op.String() == "%" {
+		deepOf(fn).each(func(x dins) {
+			if bo, ok := x.in.(*ssa.BinOp); ok && bo.Op.String() == "%" {
 				if k, ok := constInt(bo.Y); ok && k == 10 {
 					found = true
 				}
